@@ -6,17 +6,22 @@
 #ifndef VERIF_ROUNDS
 #define VERIF_ROUNDS 24
 #endif
-enum { VP_RUN = 0, VP_LOCK, VP_WAITCV, VP_JOIN };
-struct verif_thr { _Bool used, started, finished; uint8_t pend; void* obj; uint32_t joinid; void* entry; void* arg; };
+enum { VP_RUN = 0, VP_LOCK, VP_WAITCV, VP_JOIN, VP_EPOCH };
+struct verif_thr { _Bool used, started, finished; uint8_t pend; void* obj; uint32_t joinid; void* entry; void* arg; void* last_load; uint32_t last_epoch; uint32_t last_site; _Bool has_load; };
 static struct verif_thr verif_th[VERIF_NT];
 static void* verif_waiting_on[VERIF_NT];      /* condition variable the thread is blocked on (0 = not waiting) */
 uint32_t verif_cur = 0; uint32_t verif_atomic_epoch = 0; uint32_t verif_steps = 0;
 uint32_t verif_deadlock_seen = 0;
 
-void verif_pend_lock(void* m) { verif_th[verif_cur].pend = VP_LOCK; verif_th[verif_cur].obj = m; }
+void verif_pend_lock(void* m) { verif_th[verif_cur].pend = VP_LOCK; verif_th[verif_cur].obj = m; verif_th[verif_cur].has_load = 0; }
 void verif_pend_waitcv(void* cv) { verif_th[verif_cur].pend = VP_WAITCV; verif_th[verif_cur].obj = cv; }
 void verif_pend_join(uint32_t id) { verif_th[verif_cur].pend = VP_JOIN; verif_th[verif_cur].joinid = id; }
-void verif_pend_run(void) { verif_th[verif_cur].pend = VP_RUN; }
+void verif_pend_run(void) { verif_th[verif_cur].pend = VP_RUN; verif_th[verif_cur].has_load = 0; }
+/* atomic load as the next visible operation: if this thread's previous visible operation was a load of the same location and no atomic write happened since, the load
+   would return the same value (stutter): wait for the atomic-write epoch to change */
+void verif_pend_load(void* a, uint32_t site) { struct verif_thr* t = &verif_th[verif_cur];
+    if (t->has_load && t->last_load == a && t->last_site == site && t->last_epoch == verif_atomic_epoch) t->pend = VP_EPOCH; else t->pend = VP_RUN; t->obj = a; }
+void verif_did_load(void* a, uint32_t site) { struct verif_thr* t = &verif_th[verif_cur]; t->has_load = 1; t->last_load = a; t->last_site = site; t->last_epoch = verif_atomic_epoch; }
 /* the shim mutex / condition_variable objects are one byte (pad_): for a mutex it holds the locked flag */
 void verif_do_lock(void* m) { __CPROVER_assert(*(uint8_t*)m == 0, "scheduler: lock acquired only when free"); *(uint8_t*)m = 1; }
 void verif_do_unlock(void* m) { __CPROVER_assert(*(uint8_t*)m == 1, "unlock of a mutex that is not locked"); *(uint8_t*)m = 0; }
@@ -43,6 +48,7 @@ static _Bool verif_enabled(uint32_t t)
     if (verif_th[t].pend == VP_LOCK) return *(uint8_t*)verif_th[t].obj == 0;
     if (verif_th[t].pend == VP_WAITCV) return verif_waiting_on[t] == 0;
     if (verif_th[t].pend == VP_JOIN) return verif_th[verif_th[t].joinid].finished;
+    if (verif_th[t].pend == VP_EPOCH) return verif_th[t].last_epoch != verif_atomic_epoch;
     return 1;
 }
 void verif_on_quiescence(void); void verif_thread_init(void* fn, void* arg); int verif_thread_step(void* fn, void* arg); int verif_main_step(void);
